@@ -127,7 +127,7 @@ func init() {
 		Nontrivial: all(ge("grants-checked-against-disk", 8), ge("leaders-elected", 3)),
 		MinQuick:   20, MinThorough: 200,
 		Counters:    []string{"vote-requests", "votes-granted", "grants-checked-against-disk", "term-vote-persists", "crashes", "crash-restarts", "graceful-restarts", "elections", "leaders-elected", "rpcs"},
-		Prefixes:    []string{"votes-refused:", "crash@"},
+		Prefixes:    []string{"votes-refused:", "crash@", "syscall-monitor:"},
 		Assumptions: stdAssumptions,
 	}
 	properties["C06"] = propSpec{
@@ -415,6 +415,10 @@ func init() {
 	addPlan("C15", planEntry{Engine: "A", Scenario: "grown-cluster", Params: "seg=1024", Quick: 6, Thorough: 60})
 	addPlan("C09", planEntry{Engine: "A", Scenario: "grown-cluster", Params: "seg=1024", Quick: 4, Thorough: 40})
 	addPlan("C15", planEntry{Engine: "A", Scenario: "transfer-target-campaigns-later", Quick: 4, Thorough: 40})
+	// under strace: the order of renames of the term file, flushes of its
+	// directory and replies (stracemon.go)
+	addPlan("C05", planEntry{Engine: "B", Scenario: "votegrid", Params: "shard=0,shards=24", Quick: 1, Thorough: 2, Strace: true, Watchdog: 600e9})
+	addPlan("C05", planEntry{Engine: "A", Scenario: "election", Params: "steps=8", Quick: 1, Thorough: 3, Strace: true, Watchdog: 600e9})
 	addPlan("C02", planEntry{Engine: "A", Scenario: "grown-cluster", Quick: 6, Thorough: 60})
 	addPlan("C06", planEntry{Engine: "A", Scenario: "grown-cluster", Quick: 4, Thorough: 40})
 	addPlan("C08", planEntry{Engine: "A", Scenario: "grown-cluster", Quick: 4, Thorough: 40})
@@ -432,6 +436,6 @@ func init() {
 	}
 	sp := properties["C05"]
 	sp.Level = "fault_enumeration"
-	sp.Rule = "engine B vote grid, enumerated completely: voter log (3 shapes) x vote already cast in the term (none / A / B) x leader known (none / A / B) x request term (<, =, >, 2^63+1) x candidate (A / B) x candidate log (older term longer, same term shorter, equal, same term longer, newer term) x transfer flag = 2160 cases (implausible ones are generated but not sent), each followed by a second candidate in the same term, a restart and both candidates again; a seeded sixth of the cases is killed at one of the vote hooks (before persisting, after persisting, before the reply leaves) and reopened; plus " + sp.Rule
+	sp.Rule = "engine B vote grid, enumerated completely: voter log (3 shapes) x vote already cast in the term (none / A / B) x leader known (none / A / B) x request term (<, =, >, 2^63+1) x candidate (A / B) x candidate log (older term longer, same term shorter, equal, same term longer, newer term) x transfer flag = 2160 cases, and 540 more in which the request's term was adopted beforehand from a leader that made itself known and went away (implausible ones are generated but not sent), each followed by a second candidate in the same term, a restart and both candidates again; a seeded sixth of the cases is killed at one of the vote hooks (before persisting, after persisting, before the reply leaves) and reopened; a twenty-fourth of the grid and one live election run are executed under strace, and the trace (renames of the term file, flushes of its directory, writes of the event log, in the kernel's order) is checked: when a node's reply record is written no rename of its term file is waiting for the directory flush that makes it durable; plus " + sp.Rule
 	properties["C05"] = sp
 }
